@@ -13,7 +13,7 @@ import (
 
 func init() {
 	Register("C05", "Decides structural necessary conditions of 'type references resolve exactly; UsedUserTypes() lists exactly the names used': (agree) every reference position the resolvers (checker, compiler, example builder, OpenAPI) read is also read by the collector behind UsedUserTypes(); (walk) the collector descends into every node kind that has children; (dedupe) a name is appended only when it is new; (miss) every failed lookup in a type table raises ErrUserTypeNotFound with the name (the one deviant site is the recursion checker, reported under C06). Does NOT decide the iff over all reference graphs nor that unused valid types never change a result.",
-		c05agree, c05walk, c05dedupe, c05miss)
+		c05agree, c05walk, c05dedupe, c05miss, c05rawkey)
 }
 
 // reference accessors: methods through which a type name stored in the model is read.
@@ -315,4 +315,48 @@ func raisesNotFound(b *ssa.BasicBlock, depth int) bool {
 		return false
 	}
 	return walk(b, depth)
+}
+
+// c05rawkey: decoded keys must not be re-interpreted as raw key text.
+func c05rawkey(c *core.Ctx) {
+	const R = "C05.rawkey"
+	c.Rule(R, "functions that interpret RAW key/type text (ObjectNode.ChildByRawKey decides `is this a key shortcut` from the text and unquotes it) are never called with an already decoded string (taint: result of Unquote and every field/parameter that stores it, e.g. ObjectNodeKey.Key): a decoded key such as \"@id\" would be taken for a shortcut and the wrong child (or none) is followed; children are looked up with Child(key, isShortcut) using the key's own flag")
+	c.Floor(R, 1)
+	t := computeTaint(c)
+	n := 0
+	for _, cs := range c.P.Calls() {
+		name := core.FullName(core.Callee(cs.Pkg, cs.Call))
+		switch name {
+		case "(*notations/jschema/ischema.ObjectNode).ChildByRawKey":
+			n++
+			fn := core.DeclName(cs.Pkg, cs.Decl)
+			w := ""
+			if len(cs.Call.Args) == 1 {
+				w = t.exprTainted(cs.Pkg, cs.Call.Args[0])
+			}
+			c.Check(w == "", R, core.F("%s:ChildByRawKey#%d", fn, n), c.P.Pos(cs.Call.Pos()), "ChildByRawKey("+core.ExprStr(cs.Call.Args[0])+") in "+fn, "a decoded key ("+w+") is passed as raw key text: an ordinary property whose name starts with `@` is mistaken for a key shortcut and its value is not followed")
+		case "(*notations/jschema/ischema.ObjectNode).Child":
+			// the shortcut flag must come from the same key record as the key
+			if len(cs.Call.Args) == 2 {
+				n++
+				fn := core.DeclName(cs.Pkg, cs.Decl)
+				k, f := core.ExprStr(cs.Call.Args[0]), core.ExprStr(cs.Call.Args[1])
+				ok := true
+				if strings.HasSuffix(f, ".IsShortcut") {
+					base := strings.TrimSuffix(f, ".IsShortcut")
+					ok = k == base+".Key" || keyDefinedFrom(cs, cs.Call.Args[0], base+".Key")
+				}
+				c.Check(ok, R, core.F("%s:Child#%d", fn, n), c.P.Pos(cs.Call.Pos()), "Child("+k+", "+f+") in "+fn, "the key and the shortcut flag do not come from the same key record")
+			}
+		}
+	}
+}
+
+func keyDefinedFrom(cs core.CallSite, e ast.Expr, want string) bool {
+	id, ok := ast.Unparen(e).(*ast.Ident)
+	if !ok {
+		return false
+	}
+	def := findDef(cs.Pkg, cs.Pkg.TypesInfo.ObjectOf(id))
+	return def != nil && core.ExprStr(def) == want
 }
